@@ -7,17 +7,17 @@ s = open(p).read()
 rows, stats = [], {}
 for d in sorted(glob.glob(os.path.join(HERE, 'seeded', '*', 'meta.json'))):
     m = json.load(open(d))
-    rnd = {'A': 1, 'B': 1, 'C': 2, 'D': 2, 'E': 3, 'F': 3, 'G': 4, 'H': 4, 'I': 5, 'J': 5, 'K': 6, 'L': 6}[m['id'][-1]]
+    rnd = {'A': 1, 'B': 1, 'C': 2, 'D': 2, 'E': 3, 'F': 3, 'G': 4, 'H': 4, 'I': 5, 'J': 5, 'K': 6, 'L': 6, 'M': 7, 'N': 7}[m['id'][-1]]
     st = stats.setdefault(rnd, [0, 0, 0])
     det = m['detection']
     if det.startswith('MISSED'):
         out = 'missed at first, caught after widening the generator'; st[1] += 1
     elif det.startswith('NOT DETECTED'):
-        out = 'not detected: unobservable under the node model'; st[2] += 1
+        out = 'not detected: ' + ('outside the statement\'s quantification' if 'quantification' in det else 'unobservable under the node model'); st[2] += 1
     else:
         out = 'caught as built'; st[0] += 1
     rows.append(f"| {m['id']} | {m['change'][:170]} | {m['needs_to_manifest'][:150]} | {out} |")
-summary = '; '.join(f'round {r}: {v[0]} caught as built, {v[1]} after widening' + (f', {v[2]} unobservable' if v[2] else '') for r, v in sorted(stats.items()))
+summary = '; '.join(f'round {r}: {v[0]} caught as built, {v[1]} after widening' + (f', {v[2]} not detected' if v[2] else '') for r, v in sorted(stats.items()))
 table = f'<!-- seeded-table-begin -->\n{len(rows)} changes kept. {summary}.\n\n| id | change | needs | outcome |\n|---|---|---|---|\n' + '\n'.join(rows) + '\n<!-- seeded-table-end -->'
 if '<!-- seeded-table-begin -->' in s:
     s = re.sub(r'<!-- seeded-table-begin -->.*?<!-- seeded-table-end -->', lambda _m: table, s, flags=re.S)
